@@ -32,6 +32,17 @@ def seeded_table():
         rows.append("| %s | %s | %s | %s | %s%s |" % (p, str(m.get("summary", "?")).replace("|", "\\|")[:300], str(m.get("needs_to_manifest", "?")).replace("|", "\\|")[:260],
                     (suite.group(2) if suite else "?") + "; demo clean/patched exit " + "/".join(x[1] for x in demo), chk, (" — " + note) if note else ""))
     return "\n".join(rows)
+def refactor_table():
+    rows = ["| property | behaviour-preserving rewrite (independent agent) | files | our check on the rewritten tree |", "|---|---|---|---|"]
+    for d in sorted(glob.glob(os.path.join(V, "refactors", "C*"))):
+        try:
+            m = json.load(open(os.path.join(d, "meta.json")))
+        except Exception:
+            m = {}
+        res = open(os.path.join(d, "result.txt")).read().strip() if os.path.exists(os.path.join(d, "result.txt")) else "not run"
+        verdict = "silent (exit 0)" if "exit 0" in res else res
+        rows.append("| %s | %s | %s | %s |" % (os.path.basename(d), str(m.get("summary", "?")).replace("|", "\\|").replace("\n", " ")[:330], ", ".join(m.get("files_changed", []))[:120] if isinstance(m.get("files_changed"), list) else str(m.get("files_changed", "?"))[:120], verdict))
+    return "\n".join(rows)
 def status_table():
     rows = ["| property | obligations (theorems+examples) checked | axioms used | correspondence cases (quick) | hand-made mutants kept | known findings still open |", "|---|---|---|---|---|---|"]
     for f in sorted(glob.glob(os.path.join(V, "evidence", "C*.json"))):
@@ -41,7 +52,7 @@ def status_table():
         rows.append("| %s | %s/%s | %s | %s (%s tier run) | %d | %s |" % (p, c.get("discharged"), c.get("obligations"), ", ".join(a.split(".")[-1] for a in ax) or "none", c.get("evaluations"), e["tier"], nm, ", ".join(c.get("known_findings_reported", [])) or "—"))
     return "\n".join(rows)
 p = os.path.join(V, "DESIGN.md"); s = open(p).read()
-for name, fn in (("FINDINGS", findings_table), ("SEEDED", seeded_table), ("STATUS", status_table)):
+for name, fn in (("FINDINGS", findings_table), ("SEEDED", seeded_table), ("REFACTORS", refactor_table), ("STATUS", status_table)):
     b, e = "<!-- BEGIN GENERATED %s -->" % name, "<!-- END GENERATED %s -->" % name
     if b in s:
         s = s[:s.index(b) + len(b)] + "\n" + fn() + "\n" + s[s.index(e):]
